@@ -43,7 +43,10 @@ def check_cursor(ctx, num=1):
     st = [n for n in own_nodes(adv.node) if isinstance(n, ast.Assign) and any(self_attr(t, "next_batch") for t in n.targets)]
     nx = [s for s in st if isinstance(s.value, ast.Call) and norm.is_name(s.value.func, "next") and norm.U(s.value.args[0]) == "self._arrival_iterator"]
     none = [s for s in st if isinstance(s.value, ast.Constant) and s.value.value is None]
-    ok = len(nx) == 1 and len(none) >= 1 and len(st) == len(nx) + len(none)
+    # next(it, None) is the same thing in one expression
+    nx_default = [s for s in st if isinstance(s.value, ast.Call) and norm.is_name(s.value.func, "next") and len(s.value.args) == 2 and norm.U(s.value.args[0]) == "self._arrival_iterator"
+                  and isinstance(s.value.args[1], ast.Constant) and s.value.args[1].value is None]
+    ok = (len(nx) == 1 and len(none) >= 1 and len(st) == len(nx) + len(none) and len(nx[0].value.args) == 1) or (len(nx_default) == 1 and len(st) == 1)
     ctx.ob(num, "K3", "advancing takes the next batch of the reader's iterator, or None when it is exhausted", ok, adv, nx[0] if nx else adv.node, construct="self.next_batch = next(self._arrival_iterator)",
            detail=f"{[stmt_text(s) for s in st]}")
     ini = P.fn(WL, "WorkloadTrace.__init__")
